@@ -1,5 +1,6 @@
 import Gsd.Driver.C06
 import Gsd.Driver.Proto
+import Gsd.Generated.Facts
 import Gsd.Model.AList
 import Gsd.Model.Split
 import Gsd.Proofs.C06
